@@ -12,7 +12,7 @@ SPEC = dict(
                 "can_run of compiled.rs. Theorems, for every tape: ordered inputs release a prefix, unordered ones complementary "
                 "in-order sub-multisets (Split), per key for keyed inputs (KeyedRel); released ++ remaining is a permutation of the "
                 "pending items; over every history of pushes/decisions a SingletonHook's released versions never decrease; "
-                "StreamOrderHook releases a permutation and MergeOrderedHook an order-preserving interleaving; a runnable tick with idle hooks that completes run_hooks made a non-trivial decision; the unconditional form is refuted on the model (F36: a tick holding an empty PassthroughSingletonHook panics for every tape; reproduced end to end, known finding). Tie: the same op lines (hook "
+                "a KeyedSingletonHook decision is, per key, unchanged / withheld / a buffered version with the older ones dropped, hence never older than the key's last snapshot; StreamOrderHook releases a permutation and MergeOrderedHook an order-preserving interleaving; a runnable tick with idle hooks that completes run_hooks made a non-trivial decision; the unconditional form is refuted on the model (F36: a tick holding an empty PassthroughSingletonHook panics for every tape; reproduced end to end, known finding). Tie: the same op lines (hook "
                 "creation, feeding, autonomous_decision with a tape, release_decision, can_run, run_hooks via a cfg-guarded "
                 "re-export) run on the real hooks with a scripted DynDriver and on the compiled model; every answer, the "
                 "driver-call log (ranges + values) and the queue contents are diffed; the property is also evaluated on the real "
